@@ -75,6 +75,7 @@ func runC20(c *Ctx, r *Report) {
 	r.Rule("C20/lock-order", "the library's mutexes are acquired in one global order (nested acquisitions, directly or through callees, form no cycle)", 1)
 	checkLockOrder(c, r, "C20/lock-order")
 	importFoundation(c, r, "C20", "read-loop")
+	importFoundation(c, r, "C20", "open-cleanup")
 	importFoundation(c, r, "C20", "transport-pipe")
 	r.Rule("C20/ansi-bounded", "what the read loop strips before queueing cannot span ordinary output: no unbounded repetition of the escape-sequence pattern admits ESC or newline", 1)
 	checkANSIPatternBounded(c, r, "C20/ansi-bounded")
